@@ -1810,14 +1810,18 @@ def is_compressed_exact(F):
                 nid = n.fields[0].val if isinstance(n, Adt) and isinstance(n.fields[0], Int) and n.fields[0].is_conc() else None
                 if name in ("edges", "l_edges", "r_edges"):
                     d = dir_of(args[1]) if name == "edges" else (LEFT if name == "l_edges" else RIGHT)
-                    if nid == 0 and d == RIGHT and not getattr(self, "asked_next", False):
+                    # node 0's Right side has `cnt` edges; the first leads to `neighbour` (node 1, or node 0 itself), arriving at its `arrives`
+                    # side: Left = straight on (for node 0 itself: a circle biting its tail), Right = onto the other strand (for node 0 itself:
+                    # a hairpin back into the side it left from).  The arrival side of the neighbour has `edges(neighbour,arrival)` edges back.
+                    nxt = self.choose("neighbour", (1, 0))
+                    arr = self.choose("arrives", (LEFT, RIGHT))
+                    if nid == 0 and d == RIGHT:
                         cnt = self.choose("edges(node,Right)", (1, 0, 2))
-                        nxt = self.choose("neighbour", (1, 0))
-                        return VecV([Tup([Int(64, False, val=nxt if j == 0 else 1 - nxt), dir_v(LEFT), mkbool(False)]) for j in range(cnt)])
-                    if nid == 0 and d == LEFT and self.memo.get("neighbour") != 0:
-                        return VecV([])
-                    cnt = self.choose("edges(neighbour,Left)", (1, 0, 2))
-                    return VecV([Tup([Int(64, False, val=0), dir_v(RIGHT), mkbool(False)]) for _ in range(cnt)])
+                        return VecV([Tup([Int(64, False, val=nxt if j == 0 else 1 - nxt), dir_v(arr), mkbool(arr == RIGHT)]) for j in range(cnt)])
+                    if (nid == 0 and d == LEFT and nxt == 0 and arr == LEFT) or (nid == 1 and nxt == 1 and d == arr):
+                        cnt = self.choose("edges(neighbour,arrival)", (1, 0, 2))
+                        return VecV([Tup([Int(64, False, val=0), dir_v(RIGHT), mkbool(arr == RIGHT)]) for _ in range(cnt)])
+                    return VecV([])
                 if name == "len":
                     return Int(64, False, bits=[TOP] * 64, tags=frozenset({"len-of-%s" % nid}))
                 if name == "sequence":
@@ -1843,6 +1847,7 @@ def is_compressed_exact(F):
                             v = self.choose("single-k-mer(node %s)" % t[7:], (False, True))
                             return v if op == "Eq" else not v
             return None
+    rows = []
     try:
         for stranded in (False, True):
             def run(h, stranded=stranded):
@@ -1854,14 +1859,42 @@ def is_compressed_exact(F):
                 if not (isinstance(out, Adt) and out.variant in (0, 1)):
                     return None, "is_compressed returns %r" % (out,)
                 nb = a.get("neighbour", 1)
+                if stranded and a.get("arrives", LEFT) == RIGHT:
+                    continue        # a stranded graph has no links onto the other strand
                 pal = lambda i: (not stranded) and a.get("single-k-mer(node %s)" % i, False) and a.get("palindrome(node %s)" % i, False)
-                want_some = a.get("edges(node,Right)", 1) == 1 and a.get("edges(neighbour,Left)", 1) == 1 and nb != 0 and not pal(0) and not pal(nb) and a.get("join", True)
+                want_some = a.get("edges(node,Right)", 1) == 1 and a.get("edges(neighbour,arrival)", 1) == 1 and nb != 0 and not pal(0) and not pal(nb) and a.get("join", True)
                 # the same node seen from its neighbour's side does not exist in this script (len = 1): only the pair (0, neighbour) is judged
                 if bool(out.variant == 1) != bool(want_some):
-                    return False, "on a %s graph with %s it answers %s, but the two nodes %s be joined under the step rule (a single palindromic k-mer only " \
-                                  "stops a path when the graph is unstranded)" % ("stranded" if stranded else "unstranded",
-                                                                               {k: v for k, v in a.items()}, "`compressed`" if out.variant == 0 else "`not compressed`",
-                                                                               "can" if want_some else "cannot")
+                    rows.append(("reports" if out.variant == 1 else "misses",
+                                 "on a %s graph with %s it answers %s, but the two nodes %s be joined under the step rule (a single palindromic k-mer only "
+                                 "stops a path when the graph is unstranded; a node is never joined to itself)" % (
+                                     "stranded" if stranded else "unstranded", {k: (dir_name(v) if k == "arrives" else v) for k, v in a.items()},
+                                     "`compressed`" if out.variant == 0 else "`not compressed`", "can" if want_some else "cannot")))
     except (Unsupported, Undecided) as e:
         return None, str(e)
+    F._is_compressed_rows = rows
+    if rows:
+        return False, rows[0][1]
     return True, None
+
+
+def is_compressed_sound_table(F, rep, rule):
+    """`is_compressed` must not report a pair of nodes that cannot be joined: the graph route asserts (in debug builds) that its result is
+    compressed, so a false report makes re-compression of a valid graph panic.  (That it may MISS a pair is only an obligation where a
+    construction path relies on its answer, see the driver table.)"""
+    ok, why = is_compressed_exact(F)
+    if ok is None:
+        rep.inconclusive(rule, "is_compressed/sound", "is_compressed: %s" % why)
+        return
+    fp = [d for k, d in getattr(F, "_is_compressed_rows", []) if k == "reports"]
+    if fp:
+        try:
+            body = pub_fn(F, "is_compressed")
+            site = F.site(body, body["line"])
+        except Unsupported:
+            site = None
+        rep.violated(rule, "is_compressed/sound", "is_compressed reports a pair that cannot be joined: %s — compress_graph asserts on it (debug builds), so re-compressing "
+                     "such a graph panics" % fp[0], site=site, witness={"kind": "row", "count": len(fp)})
+    else:
+        rep.holds(rule, "is_compressed/sound", "is_compressed reports a pair only when the two nodes can be joined under the step rule (one edge each way, distinct nodes, "
+                  "no single palindromic k-mer when unstranded, join predicate accepts) — circles, hairpins, both strand modes")
